@@ -172,7 +172,7 @@ def _jobs(tier: str, patterns: dict[str, Any], ncmd: int, seed: int) -> list[dic
             jobs.append({"index": i, "tier": tier, "patterns": patterns, "variants": [0], "n_meta": 2,
                          "full": full[i]})
         else:
-            jobs.append({"index": i, "tier": tier, "patterns": patterns, "variants": [0, 1, 2, 3], "n_meta": 12,
+            jobs.append({"index": i, "tier": tier, "patterns": patterns, "variants": [0, 1, 2], "n_meta": 12,
                          "short": True})
     return jobs
 
@@ -181,18 +181,26 @@ def _tree_jobs(tier: str, patterns: dict[str, Any], ncmd: int, seed: int) -> lis
     """the same cases through the parser of the WHOLE command tree (0.17 s per build): all-valid presence
     combinations; quick: a seeded sample of options, thorough: every option"""
     valid_only = {fk: [p for p in ps if all(v != 0 for v in p.values())] for fk, ps in patterns.items()}
+    # per option: every source alone (does the value arrive at all?), all sources at once and env+file
+    # (who wins?) -- patterns naming "file" are not instantiable for options without a config key
+    def keep(p: dict[str, int], thorough: bool) -> bool:
+        n = sum(v == 1 for v in p.values())
+        if thorough:
+            return n == 1 or n == 3 or (p["cli"] == -1 and n == 2) or (p["file"] == -1 and n == 2)
+        return n in (1, 3) or (p["file"] == -1 and n == 2)
+
+    pats = {fk: [p for p in ps if keep(p, tier == "thorough")] for fk, ps in valid_only.items()}
     rnd = random.Random(seed)
     jobs = []
     cmds = L.walk_commands()
     for i in range(ncmd):
         names = list(cmds[i][1].CONFIG_TYPE.model_fields)
         if tier == "quick":
-            only = sorted(rnd.sample(names, 2))
-            pats = {fk: [p for p in ps if sum(v == 1 for v in p.values()) in (1, 3)] for fk, ps in valid_only.items()}
+            only = sorted(rnd.sample(names, 1))
             jobs.append({"index": i, "tier": tier, "patterns": pats, "variants": [0], "n_meta": 0, "tree": True,
                          "only": only, "reload_cap": 0})
         else:
-            jobs.append({"index": i, "tier": tier, "patterns": valid_only, "variants": [1], "n_meta": 0, "tree": True,
+            jobs.append({"index": i, "tier": tier, "patterns": pats, "variants": [1], "n_meta": 0, "tree": True,
                          "reload_cap": 0})
     return jobs
 
@@ -356,8 +364,9 @@ def run(tier: str, seed: int) -> Report:
          "every command of load_commands(), through the per-command parser" if tier == "thorough" else
          "every instantiable all-valid presence pattern x every non-hidden option of every command of "
          "load_commands(); every validity pattern x every distinct option declaration (declaring class, name)")
-        + ("; x 4 value variants; every all-valid pattern also through the whole-tree parser"
-           if tier == "thorough" else "; whole-tree parser: seeded sample of 2 options per command"))
+        + ("; x 3 value variants (notations, short option names); the single-source and all-sources patterns of "
+           "every option also through the whole-tree parser"
+           if tier == "thorough" else "; whole-tree parser: seeded sample of 1 option per command"))
     ok_prec = [i for i, r in enumerate(records) if r["kind"] == "prec" and verdicts[r["id"]] == "ok"]
     for i in ok_prec[:: max(1, len(ok_prec) // 5)][:5]:
         d = meta[i]["detail"]
